@@ -5,6 +5,11 @@ Oracle: bounded/_c03_model.py — a reference model of the message whose record 
 built from the RFC layouts, and an independent RFC 1035 wire decoder with strict pointer
 rules.  The real ``Message.to_wire`` / ``dns.message.from_wire`` are run on library
 objects built from the model through the public API.
+
+The overflow family (bounded/_c03_overflow.py) drives the low-level ``dns.renderer.Renderer``
+(and ``Message.to_wire(max_size, prefer_truncation=True)`` with a TSIG key) through record sets
+that are rejected with TooBig and rolled back while rendering carries on with sets that
+reuse the rolled-back names; its verdicts come from the same decoder and model.
 """
 
 from __future__ import annotations
@@ -14,6 +19,7 @@ import random
 import struct
 
 from bounded import _c03_model as M
+from bounded import _c03_overflow as OV
 
 BOUNDS = (
     "Exhaustive: rcode 0..4095 x opcode (dns.rcode/dns.opcode flag codecs against bit "
@@ -30,8 +36,21 @@ BOUNDS = (
     "relative names, 12% case-mixed pools; EDNS versions 0-255, all 16 flag bits, payload "
     "0-65535, 0-4 options of 8 kinds, extended rcodes; 2% with a leading TXT that pushes names "
     "past 0x3FFF; 15% rendered with record shuffling): 5 000 messages quick, 200 000 thorough "
-    "(or the time budget).  TSIG is exercised in C08, not here.  Nothing here needs the "
-    "`cryptography` package."
+    "(or the time budget).  Overflow family (record sets rejected with TooBig, rolled back, "
+    "rendering carried on): low-level dns.renderer.Renderer with max_size, add_question / "
+    "add_rrset / add_rdataset catching TooBig and continuing, add_edns, write_header, add_tsig; "
+    "1-4 rolled-back record sets per message, each the first mention of a fresh owner name "
+    "(under the zone / a new branch / under an earlier rolled-back name / 63-octet label; owner "
+    "X, sub.X, p.q.X or X only in the rdata; TXT, NS, MX, SRV sets sized above the limit under "
+    "any compression), followed by 0-3 small sets of 10 kinds that reuse X or names ending in "
+    "it, and a TSIG whose key name is X / k.X / key.sub.X / unrelated / absent; 25% with an "
+    "origin and relative names; limits: all small sets fit uncompressed + slack 0-30 (65%), a "
+    "tighter random limit (20%), big sets of random size (15%); and Message.to_wire(max_size, "
+    "prefer_truncation=True) with EDNS and such a TSIG key.  Enumerated grid of 7 150 "
+    "(fresh-name pattern x overflowing set x its owner x reusing set x TSIG key x 1-3 episodes) "
+    "on both routes (quick: seeded 500 + 150 of them; thorough: all), plus seeded scenarios: "
+    "1 300 renderer + 350 message quick, 20 000 + 5 000 thorough.  TSIG is otherwise exercised "
+    "in C08, not here (HMAC only).  Nothing here needs the `cryptography` package."
 )
 
 SIG_F10 = {
@@ -727,6 +746,47 @@ def _run_case(R, desc):
         R.violation(f["clause"], f["what"], sig=f["sig"], replay={"desc": desc, "clause": f["clause"], "sig": f["sig"]})
 
 
+def _run_overflow(R, desc):
+    """One scenario of the overflow family (bounded/_c03_overflow.py)."""
+    try:
+        sc = OV.build_scenario(desc)
+    except Exception as e:  # generator bug: a note, never a violation
+        R.note(f"generator failed for {desc}: {type(e).__name__}: {e}")
+        return
+    try:
+        findings, info = OV.check_scenario(sc)
+    except Exception as e:  # pragma: no cover - harness bug
+        R.note(f"harness error for {desc}: {type(e).__name__}: {e}")
+        return
+    key = repr(sorted(desc.items()))
+    reached = info["len"] > 0
+    rolled = reached and info["rollbacks"] > 0
+    reused = rolled and (info["reuse"] > 0 or info["tsig_reuse"])
+    R.case("C03.render_parse_total", key=key, nontrivial=rolled)
+    R.case("C03.header_fields", key=key, nontrivial=reached)
+    R.case("C03.edns_state", key=key, nontrivial=reached and info["edns"])
+    R.case("C03.records_same", key=key, nontrivial=rolled and info["records"] > 0)
+    R.case("C03.header_counts", key=key, nontrivial=rolled)
+    if not info["tsig"]:
+        R.case("C03.rerender_exact", key=key, nontrivial=rolled)
+    R.case("C03.compression_sound", key=key, nontrivial=reused and info["pointers"] > 0)
+    if reused and info["pointers"] > 0:
+        R.sample(
+            "C03.header_counts",
+            {
+                "case": desc,
+                "limit": sc.L,
+                "octets": info["len"],
+                "record sets rejected with TooBig": info["rollbacks"],
+                "later sets reusing a rolled-back first mention": info["reuse"],
+                "tsig key name under a rolled-back name": info["tsig_reuse"],
+                "pointers": info["pointers"],
+            },
+        )
+    for f in findings:
+        R.violation(f["clause"], f["what"], sig=f["sig"], replay={"desc": desc, "clause": f["clause"], "sig": f["sig"]})
+
+
 def _stop(R):
     """Stop generating at 88% of the budget so that the tier ends inside its wall-time limit."""
     return R.deadline() or R.elapsed() > 0.88 * R.budget_s
@@ -767,6 +827,25 @@ def run(R):
         if _stop(R):
             return
 
+    # overflow family: record sets rejected with TooBig and rolled back, rendering carried on.
+    # Own generator (derived from the seed) so that the seeded whole messages below are the
+    # same cases as before for a given seed.
+    orng = random.Random(f"C03-overflow-{R.seed}")
+    grid = OV.grid_points()
+    if R.quick:
+        picks = [(g, "renderer") for g in orng.sample(grid, 500)] + [(g, "message") for g in orng.sample(grid, 150)]
+    else:
+        picks = [(g, route) for g in grid for route in ("renderer", "message")]
+    for i, (g, route) in enumerate(picks):
+        _run_overflow(R, {"k": "overflow", "route": route, "sub": orng.getrandbits(32) if R.quick else i, "grid": list(g)})
+        if i % 50 == 0 and _stop(R):
+            return
+    for route, n in (("renderer", 1300 if R.quick else 20000), ("message", 350 if R.quick else 5000)):
+        for i in range(n):
+            if i % 50 == 0 and _stop(R):
+                return
+            _run_overflow(R, {"k": "overflow", "route": route, "sub": orng.getrandbits(48)})
+
     # seeded whole messages
     total = 5000 if R.quick else 200000
     for i in range(total):
@@ -805,8 +884,11 @@ def replay(data):
                 ok = int(dns.opcode.from_flags(v)) == ((v >> 11) & 0xF)
             return (not ok), f"{k} {v}"
         return False, "unknown replay record"
-    m, shuffle = build_case(data["desc"])
-    findings, info = check_model(m, shuffle)
+    if data["desc"].get("k") == "overflow":
+        findings, info = OV.check_desc(data["desc"])
+    else:
+        m, shuffle = build_case(data["desc"])
+        findings, info = check_model(m, shuffle)
     want = (data.get("clause"), repr(sorted((data.get("sig") or {}).items())))
     for f in findings:
         if (f["clause"], repr(sorted(f["sig"].items()))) == want:
